@@ -10,7 +10,9 @@ import re
 from common import *
 import c09
 
-INT_EDGE = [0, 1, 2, 7, 63, 64, 255, 65535, 9223372036854775807]
+# besides the i64 extremes, the boundaries of every narrower width a value might be cast to on its way (u8, u16, i32, u32)
+INT_EDGE = [0, 1, 2, 7, 63, 64, 255, 256, 65535, 65536, 2147483647, 2147483648, 4294967295, 4294967296, 4294967297, 4294967359, 8589934595,
+            0x7fffffff00000000, 9223372036854775807]
 STRS = ["", "a", "abc", "a,b,c", "10.1.2.3", "10.0.0.0/8", "12", "+7", "-9223372036854775808", "x y", "0x10"]
 PATS = ["a", "b c", "abc", "zz", "10", "-"]
 BINOPS_INT = ["+", "-", "*", "/", "%", "&", "|", "^", "<<", ">>", ">>>"]
@@ -166,11 +168,18 @@ def exhaustive(r):
             "[request.target][0]", "[1, \"a\"]", "[[1],[\"a\"]]", "[[1],[]]", "[[],[1]]", "([], [])", "[1][0][0]", "1(2)", "(1)(2)", "\"f\"(1)",
             "9223372036854775807 + 1", "-9223372036854775807 - 2", "9223372036854775807 * 2", "-(-9223372036854775807 - 1)",
             "(-9223372036854775807 - 1) / -1", "(-9223372036854775807 - 1) % -1", "1 << 64", "1 << -1", "1 >> 64", "1 >>> 64", "5 / 0", "5 % 0",
+            "[1,2,3][4294967296]", "[1,2,3][4294967297]", "[1,2,3][-4294967295]", "(1,2).4294967296", "(1,2).4294967297",
             "[1,2,3][-4]", "[1,2,3][3]", "[1,2,3][-9223372036854775807 - 1]", "[1][9223372036854775807]",
             "to_integer(\"9223372036854775808\")", "to_integer(\"\")", "to_integer(\"-\")", "to_integer(\" 1\")",
             "\"a\" =~ \"(\"", "\"a\" =~ \"[\"", "\"a\" =~ \"a{1000000000}\"", "split(\"\", \"\")", "split(\"a\", \"a\")", "strcat([])", "strcat([1])",
             "true && 1", "1 && true", "false && (1/0 == 1)", "true || (1/0 == 1)", "false xor (1/0 == 1)", "if true then 1 else 1/0",
             "1 _: []", "[] _: [[]]", "(1,2) == (1,2)", "[1] == [1]", "request == request"]
+    for op in ("<<", ">>", ">>>"):
+        for amt in ("63", "64", "65", "4294967295", "4294967296", "4294967297", "4294967359", "4294967360", "8589934595", "0x7fffffff00000000", "(1 << 32)", "(1 << 32) + 5", "-4294967296",
+                    "9223372036854775807", "(-9223372036854775807 - 1)", "request.target.port << 26"):
+            for lhs in ("1", "-1", "request.target.port", "9223372036854775807"):
+                out.append("%s %s %s" % (lhs, op, amt))
+                out.append("(%s %s %s) == %s" % (lhs, op, amt, lhs))
     return out
 
 
@@ -194,6 +203,44 @@ def known_class(src, in_sound_let_fragment=False):
             tags.append("C08-lazy-aggregate-scope")
         tags.append("C08-let-outside-sound-fragment")
     return tags
+
+
+_LIT2 = re.compile(r"^\s*(-?\s*\d+|\(-9223372036854775807 - 1\))\s*(\+|-|\*|/|%|&|\||\^|<<|>>>|>>)\s*(-?\d+|0x[0-9a-fA-F]+|\(-9223372036854775807 - 1\))\s*$")
+
+
+def documented_value(src):
+    """the documented result of `<integer literal> <operator> <integer literal>` on 64-bit signed integers, computed
+    here independently of the model: '(int n)' or 'ERR:arith' (overflow, division by zero, shift amount outside 0..63);
+    None for any other program"""
+    m = _LIT2.match(src)
+    if not m:
+        return None
+    def lit(t):
+        t = t.replace(" ", "")
+        if t == "(-9223372036854775807-1)":
+            return -(1 << 63)
+        return int(t, 16) if t.startswith("0x") else int(t)
+    a, op, b = lit(m.group(1)), m.group(2), lit(m.group(3))
+    lo, hi = -(1 << 63), (1 << 63) - 1
+    if not (lo <= a <= hi and lo <= b <= hi):
+        return None
+    if op in ("<<", ">>", ">>>"):
+        if not 0 <= b <= 63:
+            return "ERR:arith"
+        if op == "<<":
+            v = (a << b) & ((1 << 64) - 1)
+            v = v - (1 << 64) if v >> 63 else v
+            return "(int %d)" % v if (v >> b) == a else None        # a shift that drops set bits: left to the model comparison
+        if op == ">>":
+            return "(int %d)" % (a >> b)
+        return "(int %d)" % ((a & ((1 << 64) - 1)) >> b if b else a)
+    if op in ("/", "%"):
+        if b == 0 or (a == lo and b == -1):
+            return "ERR:arith"
+        q = abs(a) // abs(b) * (1 if (a < 0) == (b < 0) else -1)
+        return "(int %d)" % (q if op == "/" else a - q * b)
+    v = {"+": a + b, "-": a - b, "*": a * b, "&": a & b, "|": a | b, "^": a ^ b}[op]
+    return "(int %d)" % v if lo <= v <= hi else "ERR:arith"
 
 
 def run(tier, seed, replay=None):
@@ -263,6 +310,11 @@ def run(tier, seed, replay=None):
                     want = "(tup"
                 if want and not v.startswith(want):
                     bad = "accepted with type %s but evaluates to %s" % (rt, v[:40])
+        doc = documented_value(src) if not bad and oi.startswith("T=integer") and " V=" in oi else None
+        if doc is not None:
+            v_ = oi.split(" V=", 1)[1].strip()
+            if v_ != doc:
+                bad = "evaluates to %s, the documented 64-bit result is %s" % (v_[:40], doc)
         if bad:
             rep.fail("C08 oracle: %r: %s" % (src[:120], bad),
                      {"kind": "failing-input", "cases": [dict(kind=kind, line=line, meta=meta)], "source": src, "observed": oi, "model": om},
